@@ -87,7 +87,9 @@ func runE6(p *Prog, r *Report) {
 					case "Line", "Column", "Byte":
 						if isHclPos(xt) {
 							nAsg++
-							if _, isConst := constInt(info, e.Rhs[i]); isConst {
+							if done, ok := e6PairedShift(p, r, fn, ip, e, sel); ok {
+								_ = done
+							} else if _, isConst := constInt(info, e.Rhs[i]); isConst {
 								r.Add("E6.no-absolute", fn.Name, "assignment to "+exprStr(l), p.Pos(e), Violated, "a position component is assigned an absolute constant", true)
 							} else {
 								r.Add("E6.component-assign", fn.Name, "assignment to "+exprStr(l), p.Pos(e), Violated,
@@ -542,4 +544,63 @@ func rangeVarEmitted(fn *Func, rv types.Object) bool {
 		return true
 	})
 	return emitted
+}
+
+// e6PairedShift: `P.Column += d` beside `P.Byte += d` (same position, same operator, same
+// term, Line untouched in between) is the statement form of a coherent same-line shift; it is
+// judged like a position literal (the term must be a constant, never a byte length). Returns
+// ok=false when the assignment is not one half of such a pair.
+func e6PairedShift(p *Prog, r *Report, fn *Func, ip *idxProver, as *ast.AssignStmt, sel *ast.SelectorExpr) (bool, bool) {
+	if (as.Tok != token.ADD_ASSIGN && as.Tok != token.SUB_ASSIGN) || len(as.Lhs) != 1 || len(as.Rhs) != 1 {
+		return false, false
+	}
+	other := "Byte"
+	if sel.Sel.Name == "Byte" {
+		other = "Column"
+	} else if sel.Sel.Name != "Column" {
+		return false, false
+	}
+	info := fn.Info()
+	base := pathOf(info, sel.X)
+	blk, ok := p.Parent(as).(*ast.BlockStmt)
+	if !ok || base == "" {
+		return false, false
+	}
+	var partner *ast.AssignStmt
+	idx, pidx := -1, -1
+	for k, st := range blk.List {
+		if st == ast.Stmt(as) {
+			idx = k
+		}
+		s2, ok := st.(*ast.AssignStmt)
+		if !ok || s2 == as || s2.Tok != as.Tok || len(s2.Lhs) != 1 || len(s2.Rhs) != 1 {
+			continue
+		}
+		if s2sel, ok := ast.Unparen(s2.Lhs[0]).(*ast.SelectorExpr); ok && s2sel.Sel.Name == other && pathOf(info, s2sel.X) == base {
+			partner, pidx = s2, k
+		}
+	}
+	if partner == nil || idx < 0 || (pidx-idx != 1 && idx-pidx != 1) {
+		return false, false
+	}
+	if sel.Sel.Name == "Byte" {
+		return true, true // judged at the Column half
+	}
+	dc, db := ip.parse(fn, as.Rhs[0], 0), ip.parse(fn, partner.Rhs[0], 0)
+	construct := exprStr(sel.X) + " shifted in place"
+	if dc == nil || db == nil {
+		r.Add("E6.coherent-shift", fn.Name, construct, p.Pos(as), Violated, "Column/Byte are not shifted by a linear term", true)
+		return true, true
+	}
+	if dc.key() != db.key() {
+		r.Add("E6.coherent-shift", fn.Name, construct, p.Pos(as), Violated,
+			fmt.Sprintf("Column is shifted by %s but Byte by %s: the position's column no longer matches its byte offset", dc, db), true)
+		return true, true
+	}
+	r.Add("E6.coherent-shift", fn.Name, construct, p.Pos(as), OK, "same-line shift by "+dc.String()+" for both column and byte", true)
+	if !dc.isConst() {
+		r.Add("E6.byte-length-as-column", fn.Name, "hcl.Pos shifted by "+dc.String(), p.Pos(as), Violated,
+			"the column is shifted by a byte length ("+dc.String()+"): for multi-byte text the column no longer matches the byte offset", true)
+	}
+	return true, true
 }
